@@ -458,14 +458,32 @@ def r16_2(F, R):
     nxt = _one(F, "<dvi::transforms::VarRemover as core::iter::traits::iterator::Iterator>::next")
     want = {"W": "h", "X": "h", "Y": "v", "Z": "v"}
     ops = {v[0]: v[2] for v in F.enums[OP]}
+    # private helpers of the dvi crate that update() may delegate the move to (one level of inlining, same type assumptions)
+    helpers = {}
+    for bi, t in upd.calls():
+        c = t.get("callee") or {}
+        g = F.fns.get(c.get("rid")) or F.fns.get(c.get("id"))
+        if g is not None and g.crate == "dvi.lib" and g.id != upd.id:
+            helpers[strip_generics(g.name).split("::", 1)[-1]] = g
+
+    def helper_axes(g, assume):
+        out = set()
+        for p in EDT(F, g, type_assume=assume, interesting_fields=["h", "v"]).run():
+            for ev in p.events:
+                if ev[0] == "store" and ev[1].split(".")[-1] in ("h", "v"):
+                    out.add(ev[1].split(".")[-1])
+        return out
     for opname in ("Move", "SetVar"):
         for vname, vd, vvi in F.enums[VAR]:
-            e = EDT(F, upd, type_assume={OP: ops[opname], VAR: vvi}, interesting_fields=["h", "v"])
+            assume = {OP: ops[opname], VAR: vvi}
+            e = EDT(F, upd, type_assume=assume, interesting_fields=["h", "v"], interesting_calls=sorted(helpers))
             axes = set()
             for p in e.run():
                 for ev in p.events:
                     if ev[0] == "store" and ev[1].split(".")[-1] in ("h", "v"):
                         axes.add(ev[1].split(".")[-1])
+                    if ev[0] == "call" and ev[1] in helpers:
+                        axes |= helper_axes(helpers[ev[1]], assume)
             inst = "update/%s(%s)" % (opname, vname)
             if axes == {want[vname]}:
                 R.ok("R16.2", inst, "moves %s" % sorted(axes), "%s:%d" % (upd.file, upd.line), how="edt")
